@@ -42,10 +42,10 @@ TrRound == Have /\ Rec.ev = "Round" =>
 (* shiftTimestamp: plain addition; for the monthly step a month start moves by whole months *)
 TrShift == Have /\ Rec.ev = "Shift" =>
     IF Rec.step = Month
-    THEN LET j == CHOOSE j \in DOMAIN Rec.months : Rec.months[j] = Rec.t
-         IN /\ \E q \in DOMAIN Rec.months : Rec.months[q] = Rec.t
-            /\ j + Rec.k \in DOMAIN Rec.months
-            /\ Rec.out = Rec.months[j + Rec.k]
+    THEN /\ \E q \in DOMAIN Rec.months : Rec.months[q] = Rec.t
+         /\ LET j == CHOOSE q \in DOMAIN Rec.months : Rec.months[q] = Rec.t
+            IN /\ j + Rec.k \in DOMAIN Rec.months
+               /\ Rec.out = Rec.months[j + Rec.k]
     ELSE Rec.out = Rec.t + Rec.shift
 (* calcUTCOffset(location, week start): with the offset, weekly points are local midnights of the
    week's first day and daily points local midnights.  Unix day 0 is a Thursday (weekday 4), so
@@ -54,8 +54,25 @@ TrShift == Have /\ Rec.ev = "Shift" =>
 CalcOK(off, zone, ws) == (off - zone - (4 - ws) * Day) % Week = 0
 TrCalcRange == Have /\ Rec.ev = "Calc" => -Week < Rec.out /\ Rec.out < Week
 TrCalcFixedZone == Have /\ Rec.ev = "Calc" /\ Rec.zone0 = Rec.zonenow => CalcOK(Rec.out, Rec.zonenow, Rec.ws)
-TrCalcEpochZone == Have /\ Rec.ev = "Calc" => CalcOK(Rec.out, Rec.zone0, Rec.ws)
+TrCalcSomeZone == Have /\ Rec.ev = "Calc" => CalcOK(Rec.out, Rec.zone0, Rec.ws) \/ CalcOK(Rec.out, Rec.zonenow, Rec.ws)
 TrCalcCurrentZone == Have /\ Rec.ev = "Calc" => CalcOK(Rec.out, Rec.zonenow, Rec.ws)
+
+(* ---- reporting mode ----
+   With the invariants above TLC stops at the first rejected record.  The check normally runs the
+   cfg with CONSTRAINT Report instead: every record is judged by every clause and each failure is
+   printed as <<"REJ", line, clause>>, so that records reproducing a known finding do not hide
+   others; a rejected record is then re-validated alone with the invariants (TimescaleTrace_inv.cfg). *)
+Chk(name, ok) == ok \/ PrintT(<<"REJ", l, name>>)
+Report == Have =>
+    /\ Chk("ErrorsAgree", TrErrorsAgree) /\ Chk("NoUnexpectedError", TrNoUnexpectedError)
+    /\ Chk("NonEmpty", TrNonEmpty) /\ Chk("LODSteps", TrLODSteps) /\ Chk("LODFiner", TrLODFiner)
+    /\ Chk("Limit", TrLimit) /\ Chk("Increasing", TrIncreasing) /\ Chk("LenSum", TrLenSum)
+    /\ Chk("PointShape", TrPointShape) /\ Chk("Diffs", TrDiffs) /\ Chk("Aligned", TrAligned)
+    /\ Chk("View", TrView) /\ Chk("CoverStart", TrCoverStart) /\ Chk("CoverEnd", TrCoverEnd)
+    /\ Chk("Ranges", TrRanges)
+    /\ Chk("Round", TrRound) /\ Chk("Shift", TrShift) /\ Chk("CalcRange", TrCalcRange)
+    /\ Chk("CalcFixedZone", TrCalcFixedZone) /\ Chk("CalcSomeZone", TrCalcSomeZone)
+    /\ Chk("CalcCurrentZone", TrCalcCurrentZone)
 
 MCResolutions == {1, 5, 15, 60, 300, 900, 3600, 14400, 86400, 604800, 2678400}
 ===============================================================================
